@@ -23,7 +23,7 @@ FUNCTIONS = [
     "jsonargparse._util.change_to_path_dir; jsonargparse._common.parser_context; jsonargparse._namespace.patch_namespace",
 ]
 
-OPS = ["parse_object_dict", "parse_object_ns", "parse_args_ns", "validate", "validate_raw", "dump", "save", "merge_config", "strip_unknown",
+OPS = ["parse_object_dict", "parse_object_ns", "parse_object_cfg_base", "parse_args_ns", "validate", "validate_raw", "dump", "save", "merge_config", "strip_unknown",
        "instantiate", "get_defaults", "format_help"]
 
 # where a shape can be made invalid: (path in the object, bad value)
@@ -40,10 +40,11 @@ INVALID = {
     "groups": (("g", "a"), "bad"),
     "class_group": (("m", "w"), "bad"),
     "holder": (("h", "init_args", "n"), "bad"),
+    "class_containers": (("ub",), "bad"),
 }
 C08_SHAPES_QUICK = ["lists", "tuples", "dicts", "set_small", "dataclass", "subclass_default", "class_group", "groups"]
-C08_SHAPES_THOROUGH = C08_SHAPES_QUICK + ["scalars", "subclass", "holder", "set_literal_enum"]
-CLASS_SHAPES = {"subclass", "subclass_default", "class_group", "dataclass", "holder"}
+C08_SHAPES_THOROUGH = C08_SHAPES_QUICK + ["scalars", "subclass", "holder", "set_literal_enum", "class_containers"]
+CLASS_SHAPES = {"subclass", "subclass_default", "class_group", "dataclass", "holder", "class_containers", "class_list_small"}
 
 
 def snap(x):
@@ -149,7 +150,7 @@ def mutation(op, shape):
         args = {}
         raised = None
         # ---- prepare the call's arguments
-        if op in ("parse_object_dict", "parse_object_ns", "parse_args_ns", "validate_raw"):
+        if op in ("parse_object_dict", "parse_object_ns", "parse_object_cfg_base", "parse_args_ns", "validate_raw"):
             if invalid:
                 _set_path(obj, bad_path, bad_val)
             if op == "parse_object_dict":
@@ -159,6 +160,10 @@ def mutation(op, shape):
                 ns = _to_ns(obj)
                 args = dict(cfg_obj=ns)
                 call = lambda: parser.parse_object(ns)
+            elif op == "parse_object_cfg_base":
+                ns = _to_ns(obj)
+                args = dict(cfg_base=ns)
+                call = lambda: parser.parse_object({}, cfg_base=ns)
             elif op == "parse_args_ns":
                 ns = _to_ns(obj)
                 argv = ["--" + k + "=" + json.dumps(v) for k, v in obj.items() if isinstance(v, (bool,)) and False]
@@ -287,6 +292,9 @@ def _shared_objects(a, b, path=""):
 def plan(tier):
     shapes = C08_SHAPES_QUICK if tier == "quick" else C08_SHAPES_THOROUGH
     jobs = []
+    for op in ("parse_args_ns", "parse_object_cfg_base", "merge_config"):
+        if tier == "quick":
+            jobs.append((op, "class_list_small"))
     for shape in shapes:
         for op in OPS:
             if op == "instantiate" and shape not in CLASS_SHAPES:
